@@ -16,21 +16,30 @@ ACTIONS = ["read", "write-new", "write-replace", "write-nested", "clear", "write
 CTX = ["backend", "objects-exit-A-first", "objects-exit-B-first", "objects-entered-B-first", "backend-around-objects"]
 
 
+VARIANT = None  # "four" (thorough prog4): 4-step programs, 6 actions, one class per strategy; "three-objects" (thorough prog3o)
+
+
 def nobj():
-    return 3 if hlib.TIER == "thorough" else 2
+    return 3 if VARIANT == "three-objects" else 2
 
 
 def nsteps():
-    return 5 if hlib.TIER == "thorough" else 3
+    return 4 if VARIANT == "four" else 3
 
 
 def parts():
+    if VARIANT == "four":
+        return [p for p in PARTS if not p[0].attr and p[1] == "dict"]
+    if VARIANT == "three-objects":
+        return [p for p in PARTS if not p[0].attr]
     if hlib.TIER == "thorough":
         return PARTS
     return [p for p in PARTS if not p[0].attr]  # the attribute-access variants share the buffer code
 
 
 def actions():
+    if VARIANT is not None:
+        return ACTIONS[:6]
     return ACTIONS if hlib.TIER == "thorough" else ACTIONS[:6]
 
 
@@ -53,6 +62,30 @@ def prog(ci: int, t1: int, t2: int, t3: int, t4: int, t5: int, pre: int) -> bool
     if ctx is None or None in sel or pre is None:
         return finish(False, True)
     return ops.native(_run, env, fam, which, ctx, sel, pre, names, (ci, t1, t2, t3, t4, t5, pre))
+
+
+def prog4(ci: int, t1: int, t2: int, t3: int, t4: int, t5: int, pre: int) -> bool:
+    """Four-step programs (thorough tier).
+    post: _
+    """
+    global VARIANT
+    VARIANT = "four"
+    try:
+        return prog(ci, t1, t2, t3, t4, t5, pre)
+    finally:
+        VARIANT = None
+
+
+def prog3o(ci: int, t1: int, t2: int, t3: int, t4: int, t5: int, pre: int) -> bool:
+    """Three objects on one file (thorough tier).
+    post: _
+    """
+    global VARIANT
+    VARIANT = "three-objects"
+    try:
+        return prog(ci, t1, t2, t3, t4, t5, pre)
+    finally:
+        VARIANT = None
 
 
 def _run(env, fam, which, ctx, sel, pre, names, args):
@@ -174,7 +207,9 @@ def _run(env, fam, which, ctx, sel, pre, names, args):
 def plan(tier):
     if tier == "quick":
         return [{"fn": "prog", "nparts": 4 * 12, "timeout": 300}]  # class x first token (2 objects x 6 actions)
-    return [{"fn": "prog", "nparts": len(PARTS) * 24, "timeout": 2400}]  # class x first token (3 objects x 8 actions)
+    return [{"fn": "prog", "nparts": len(PARTS) * 16, "timeout": 900},  # class x first token (2 objects x 8 actions)
+            {"fn": "prog4", "nparts": 2 * 12, "timeout": 900},  # one dict class per strategy x first token (2 objects x 6 actions)
+            {"fn": "prog3o", "nparts": 4 * 18, "timeout": 900}]  # non-attr classes x first token (3 objects x 6 actions)
 
 
 def smoke(tier):
@@ -196,7 +231,7 @@ FUNCTIONS = [
     "synced_collections.buffers.memory_buffered_collection:SharedMemoryFileBufferedCollection._save_to_buffer",
     "synced_collections.buffers.memory_buffered_collection:SharedMemoryFileBufferedCollection._load_from_buffer",
 ]
-BOUNDS = {"quick": {"classes": 8, "objects_on_one_file": 2, "contexts": CTX, "pre_histories": ["none", "A-loaded-before", "B-used-buffered-before"], "classes_quick": "BufferedJSON and MemoryBufferedJSON dict/list (the attribute-access variants share the buffer code)", "program": "3 tokens over {A,B} x " + str(ACTIONS[:5])},
-          "thorough": {"classes": 8, "objects_on_one_file": 3, "program": "5 tokens over {A,B,C} x " + str(ACTIONS)}}
+BOUNDS = {"quick": {"classes": 8, "objects_on_one_file": 2, "contexts": CTX, "pre_histories": ["none", "A-loaded-before", "B-used-buffered-before"], "classes_quick": "BufferedJSON and MemoryBufferedJSON dict/list (the attribute-access variants share the buffer code)", "program": "3 tokens over {A,B} x " + str(ACTIONS[:6])},
+          "thorough": {"prog": "8 classes, 3 tokens over {A,B} x " + str(ACTIONS), "prog4": "BufferedJSONDict and MemoryBufferedJSONDict, 4 tokens over {A,B} x " + str(ACTIONS[:6]), "prog3o": "4 non-attr classes, three objects, 3 tokens over {A,B,C} x " + str(ACTIONS[:6])}}
 ASSUMPTIONS = ["finite selector space explored exhaustively through the solver's path tree; decided programs run the real code natively with concrete values", "environment models of vf/env_model.py; default capacity"]
-OUTSIDE = ["more than 2 (3) objects, more than 4 (5) tokens", "objects in *different* buffering states (documented as unsupported by the library)"]
+OUTSIDE = ["more than 3 objects, more than 3 (4) tokens", "objects in *different* buffering states (documented as unsupported by the library)"]
